@@ -378,6 +378,12 @@ func corpusScale(c *vrep.Ctx, prop string) {
 		res := cl.Match(cs.In)
 		toks := vTokenize(cs.In)
 		var msgs []string
+		if c.Param("trace", "off") == "all" {
+			// diagnostics must not change the answer
+			if a, b := vFmt(res), vFmt(vEmbeddedCached(t).Match(cs.In)); a != b {
+				msgs = append(msgs, fmt.Sprintf("with every trace phase on Match returns %s, without tracing %s", a, b))
+			}
+		}
 		switch prop {
 		case "c02":
 			msgs = oracleC02(cl, toks, res)
